@@ -23,7 +23,7 @@ func drawEpoch(rt *rapid.T) time.Time {
 }
 
 func drawConfig(rt *rapid.T) cbConfig {
-	return cbConfig{
+	cfg := cbConfig{
 		expr:         rapid.SampledFrom(simpleConditions).Draw(rt, "condition"),
 		fallback:     drawDuration(rt, "fallback"),
 		recovery:     drawDuration(rt, "recovery"),
@@ -33,6 +33,16 @@ func drawConfig(rt *rapid.T) cbConfig {
 		fallbackKind: rapid.IntRange(0, 2).Draw(rt, "fallback-kind"),
 		slowLogger:   rapid.IntRange(0, 2).Draw(rt, "slow-logger") == 0,
 	}
+	if rapid.IntRange(0, 2).Draw(rt, "neighbour-breaker") == 0 {
+		cfg.neighbour, cfg.nbFallback, cfg.nbRecovery, cfg.nbTick = true, cfg.fallback, cfg.recovery, cfg.checkPeriod
+		if rapid.Bool().Draw(rt, "neighbour-has-its-own-periods") {
+			cfg.nbFallback, cfg.nbRecovery = drawDuration(rt, "nb-fallback"), drawDuration(rt, "nb-recovery")
+		}
+		if cfg.nbTick <= 0 {
+			cfg.nbTick = time.Millisecond
+		}
+	}
+	return cfg
 }
 
 // workload drives one breaker through trip / fallback / recovery cycles.
@@ -55,7 +65,7 @@ func workload(w *cbWorld, recoveryHeavy bool) {
 		w.sim.Quiesce()
 		w.check()
 	}
-	w.abandoned = func() bool { return rapid.IntRange(0, 7).Draw(rt, "abandoned") == 0 }
+	w.abandoned = drawAbandoned(rt)
 	for i := 0; i < nops; i++ {
 		state := w.obs[len(w.obs)-1]
 		var kinds []string
@@ -79,7 +89,14 @@ func workload(w *cbWorld, recoveryHeavy bool) {
 		if !w.cfg.fine {
 			kinds = append(kinds, "rewrap")
 		}
+		if w.other != nil {
+			kinds = append(kinds, "neighbour", "neighbour")
+		}
 		switch rapid.SampledFrom(kinds).Draw(rt, "op") {
+		case "neighbour":
+			for k := rapid.IntRange(1, 3).Draw(rt, "neighbour-requests"); k > 0; k-- {
+				w.pokeNeighbour(rapid.SampledFrom([]int{500, 500, 503, 200}).Draw(rt, "neighbour-status"))
+			}
 		case "rewrap":
 			// the chain is re-assembled around the breaker (same handler): its state and metrics are unaffected
 			w.cb.Wrap(w.handler)
@@ -149,6 +166,7 @@ func workload(w *cbWorld, recoveryHeavy bool) {
 			w.r.Fail("fallback-status", "request %d answered by the fallback shows status %d", q.id, q.rec.Status)
 		}
 	}
+	w.r.ProbeN("neighbour-breaker-requests", w.otherPokes)
 }
 
 func finishRun(w *cbWorld, res modelResult) {
